@@ -33,7 +33,12 @@ def _pool(cfgmod, section, typ, syn):
     return out, (l0, l1, l2)
 
 
-def _marker(section, layer, key):
+def _marker(section, layer, key, builtin=None):
+    if isinstance(builtin, dict):
+        # a dict-valued option is replaced as a whole by the more specific layer, never merged into
+        return {'mk%d' % layer: 'L%d<%s>' % (layer, key)}
+    if isinstance(builtin, list):
+        return ['mk%d' % layer]
     if section == 'snippets':
         return 'mk%dq%d' % (layer, zlib.crc32(key.encode()) % 97)
     return 'L%d<%s>' % (layer, key)
@@ -70,16 +75,22 @@ def _one(emmet, vec, section, typ, syn, conc, tabs, bad, stats):
     expected = {}
     for mk in sorted(conc):
         c = conc[mk]
+        bi = None
+        for tab in tabs:
+            if c in tab:
+                bi = tab[c]
+        if section != 'options':
+            bi = None
         for layer in vec['defs'][mk]:
             if layer == 3:
-                glob.setdefault(typ, {}).setdefault(section, {})[c] = _marker(section, 3, c)
+                glob.setdefault(typ, {}).setdefault(section, {})[c] = _marker(section, 3, c, bi)
             elif layer == 4:
-                glob.setdefault(syn, {}).setdefault(section, {})[c] = _marker(section, 4, c)
+                glob.setdefault(syn, {}).setdefault(section, {})[c] = _marker(section, 4, c, bi)
             elif layer == 5:
-                user.setdefault(section, {})[c] = _marker(section, 5, c)
+                user.setdefault(section, {})[c] = _marker(section, 5, c, bi)
         eff = vec['eff'][mk]
         if eff >= 3:
-            expected[c] = ('marker', _marker(section, eff, c))
+            expected[c] = ('marker', _marker(section, eff, c, bi))
         elif eff >= 0:
             expected[c] = ('builtin', tabs[eff][c])
         else:
